@@ -783,6 +783,63 @@ fn c06_cross(inp: &C06Input, script: &[Step], async_parse: bool, sched: &str, st
     }
 }
 
+/// C06 (2b): parse through the async interface, read the document with VECTORED async reads (two buffers per call)
+/// while the source keeps answering not-ready between small chunks
+fn c06_vectored(inp: &C06Input, script: &[Step], sched: &str, st: &mut Stats) {
+    let n = inp.head_len;
+    let tail = inp.data.len() - n;
+    let want = inp.data[n..].to_vec();
+    st.evaluations += 1;
+    st.traces += 1;
+    st.nontrivial.insert(fnv(format!("xv:{}:{}", inp.name, sched).as_bytes()));
+    let mon = Monitor::new();
+    let src = ScriptSource::new(inp.data.clone(), script.to_vec(), mon.clone());
+    let mon2 = mon.clone();
+    let r = std::panic::catch_unwind(std::panic::AssertUnwindSafe(move || -> Result<Vec<u8>, String> {
+        let fut = async move {
+            let parsed = AsyncIppParser::new(AsyncIppReader::new(src)).parse().await.map_err(|e| format!("parse error {:?}", e))?;
+            let mut payload = parsed.into_payload();
+            let mut out = vec![];
+            let (mut a, mut b) = ([0u8; 3], [0u8; 5]);
+            for _ in 0..(4 * tail + 1000) {
+                let mut slices = [std::io::IoSliceMut::new(&mut a), std::io::IoSliceMut::new(&mut b)];
+                match futures_util::io::AsyncReadExt::read_vectored(&mut payload, &mut slices).await {
+                    Ok(0) => return Ok(out),
+                    Ok(k) if k > 8 => return Err("read_vectored reported more than the buffers hold".to_string()),
+                    Ok(k) => {
+                        out.extend_from_slice(&a[..k.min(3)]);
+                        if k > 3 {
+                            out.extend_from_slice(&b[..k - 3]);
+                        }
+                    }
+                    Err(e) => return Err(format!("payload read error {:?} through vectored AsyncRead", e.kind())),
+                }
+            }
+            Err("no end-of-stream".to_string())
+        };
+        match run_manual(fut, &mon2, 16 * (n + tail) + 4000, None) {
+            Run::Done { value, .. } => value,
+            Run::LostWakeup { polls } => Err(format!("lost wake-up after {} polls", polls)),
+            Run::Horizon { polls } => Err(format!("not finished after {} polls", polls)),
+        }
+    }));
+    st.transitions += mon.calls.load(SeqCst) as u64;
+    let which = "async-parsed-read-async-vectored";
+    let case = json!({"input": inp.name, "head_len": n, "payload_len": tail, "script": script_json(script), "mode": which, "bytes": if inp.data.len() <= 600 { json!(hex(&inp.data)) } else { json!({"head": hex(&inp.data[..inp.head_len.min(300)]), "len": inp.data.len()}) }});
+    match r {
+        Ok(Ok(out)) if out == want => st.outcome("document-identical"),
+        Ok(Ok(out)) => {
+            st.outcome("document-differs");
+            st.violate(format!("{}:document-differs", which), format!("input {} schedule {}: {} payload bytes instead of {}", inp.name, sched, out.len(), tail), case);
+        }
+        Ok(Err(e)) => {
+            st.outcome("document-lost");
+            st.violate(format!("{}:document-lost", which), format!("input {} schedule {}: {}", inp.name, sched, e), case);
+        }
+        Err(p) => st.violate(format!("{}:panic", which), format!("input {} schedule {}: panic {}", inp.name, sched, panic_text(p)), case),
+    }
+}
+
 fn c06_schedules(n: usize, two_cut_limit: usize, one_cut_limit: usize, f: &mut dyn FnMut(Vec<usize>, String)) {
     f(vec![n], "whole".into());
     let mut sizes: Vec<usize> = if n <= 8192 { (1..=n.min(16)).collect() } else { vec![1, 7] };
@@ -823,7 +880,7 @@ pub fn run_c06(ctx: &Ctx) -> ! {
     let mut rep = Report::new(
         ctx,
         "model_checking",
-        "well-formed messages (D-corpus + curated short ones) x payload {none, [03], IPP look-alike, 70 000 patterned bytes, 1 MiB + 64 KiB + 1 for two inputs} x read fragmentations of the header+attributes section (whole = read-ahead possible; uniform sizes 1..64; every 1-cut; every 2-cut for short messages; EVERY composition for messages <= 16 (21) bytes) x for the blocking reader Err(Interrupted) before each chunk and twice x for the async reader a not-ready answer before each chunk x entry points parse / parse_parts x both parsers; plus the document of a parsed message taken as IppPayload and read through the OTHER interface (async-parsed -> std::io::Read, blocking-parsed -> AsyncRead) while the source keeps fragmenting and answering not-ready / Interrupted after the end tag; plus documents of 1 GiB + 4097 (thorough: and 4 GiB + 4097) bytes streamed from a pattern generator and verified on the fly. A monitor inside the scripted source records bytes delivered and the furthest offset any read ever ASKED for at the moment parse returns. Oracle: delivered == |header+attributes| exactly, nothing requested beyond it, payload read afterwards is byte-identical, content equals the whole-delivery result. states = distinct (input, number of chunks, interrupts / readiness mode) triples; transitions = read calls answered; non-trivial = more than one chunk",
+        "well-formed messages (D-corpus + curated short ones) x payload {none, [03], IPP look-alike, 70 000 patterned bytes, 1 MiB + 64 KiB + 1 for two inputs} x read fragmentations of the header+attributes section (whole = read-ahead possible; uniform sizes 1..64; every 1-cut; every 2-cut for short messages; EVERY composition for messages <= 16 (21) bytes) x for the blocking reader Err(Interrupted) before each chunk and twice x for the async reader a not-ready answer before each chunk x entry points parse / parse_parts x both parsers; plus the document of a parsed message taken as IppPayload and read through the OTHER interface (async-parsed -> std::io::Read, blocking-parsed -> AsyncRead) and through vectored async reads while the source keeps fragmenting and answering not-ready / Interrupted after the end tag; plus documents of 1 GiB + 4097 (thorough: and 4 GiB + 4097) bytes streamed from a pattern generator and verified on the fly. A monitor inside the scripted source records bytes delivered and the furthest offset any read ever ASKED for at the moment parse returns. Oracle: delivered == |header+attributes| exactly, nothing requested beyond it, payload read afterwards is byte-identical, content equals the whole-delivery result. states = distinct (input, number of chunks, interrupts / readiness mode) triples; transitions = read calls answered; non-trivial = more than one chunk",
     );
     let tier = ctx.tier;
     let limit = tier.pick(16usize, 21usize);
@@ -899,7 +956,11 @@ pub fn run_c06(ctx: &Ctx) -> ! {
         st.evaluations = 1;
         if let Some(mode) = j["mode"].as_str() {
             st.evaluations = 0;
-            c06_cross(&inp, &script, mode == "async-parsed-read-blocking", "replay", &mut st);
+            if mode == "async-parsed-read-async-vectored" {
+                c06_vectored(&inp, &script, "replay", &mut st);
+            } else {
+                c06_cross(&inp, &script, mode == "async-parsed-read-blocking", "replay", &mut st);
+            }
         } else if j["parser"].as_str() == Some("async") {
             if let (AsyncRun::Done(obs, _), _) = run_async(&inp.data, script.clone(), entry, None) {
                 c06_judge(&inp, "async", entry, "replay", &script, &obs, &mut st);
@@ -1035,6 +1096,12 @@ pub fn run_c06(ctx: &Ctx) -> ! {
                     }
                 }
                 c06_cross(inp, &script, async_parse, &format!("{}", sched), st);
+                if async_parse {
+                    // the same schedule, and one with deferred wake-ups, through vectored async reads
+                    c06_vectored(inp, &script, &format!("{}", sched), st);
+                    let deferred: Vec<Step> = script.iter().map(|x| if matches!(x, Step::Pending { .. }) { Step::Pending { deferred: true } } else { *x }).collect();
+                    c06_vectored(inp, &deferred, &format!("{}-deferred", sched), st);
+                }
             }
         }
     });
